@@ -53,7 +53,7 @@ def gen_cases(rng, tier, rnd):
     while len(cases) < n:
         r0 = rng.random()
         a = genpda.needle_pda(rng) if r0 < 0.06 else ({**genpda.ambiguous_stack_pda(rng), 'keep_gamma': True} if r0 < 0.1 else
-                                                      (genpda.chain_pda(rng) if r0 < 0.18 else genpda.abstract_pda(rng)))
+                                                      (genpda.chain_pda(rng) if r0 < 0.18 else (genpda.dense_epsilon_pda(rng) if r0 < 0.25 else genpda.abstract_pda(rng))))
         s, rank = genfa.rename(a, rng)
         s['dd'] = rng.random() < 0.7        # else a plain dict that has only the keys of the transitions
         cases.append({'spec': s, 'rank': rank, 'abs': hx(a), 'steps': _steps(rng, s, 6)})
